@@ -199,6 +199,17 @@ def targets_through_convert():
             targets = [20, 40, 60, 80, 95] + ([32700] if suffix else [])
             want = sorted(targets if filt else [10, 20, 30, 40, 50, 60, 70, 80, 90, 95] + ([32700] if suffix else []))
             res.append(ob("targets/empty lines keep their labels,filter=%d,suffix=%d" % (filt, suffix), labs == want, want, labs))
+        # ON lists are positional: the k-th entry is the target for selector value k - repeated entries stay where they are
+        for src, want in {"ON A GOTO 100,100,200": "ON A GOTO 100, 100, 200", "ON A GOSUB 200,100,200,100": "ON A GOSUB 200, 100, 200, 100", "ON A GOTO 100": "ON A GOTO 100",
+                          "ON A GOTO 200,200": "ON A GOTO 200, 200"}.items():
+            for filt in (False, True):
+                try:
+                    text = convert("10 %s\n100 END\n200 END\n" % src, add_standard_prefix=False, filter_unused_linenum=filt)
+                    got = next((l for l in text.split("\n") if "ON A" in l), text).split(" ", 1)[1] if not filt else next((l for l in text.split("\n") if "ON A" in l), text).strip()
+                    got = got[got.index("ON A"):]
+                except Exception as e:  # noqa
+                    got = "%s: %s" % (type(e).__name__, str(e)[:80])
+                res.append(ob("targets/ON list keeps every entry in place/%s,filter=%d" % (src, filt), got == want, want, got))
         for name, prog in {"GOTO 40000": "10 GOTO 40000\n20 END\n", "GOSUB 32700": "10 GOSUB 32700\n", "ON list entry 32768": "10 ON A GOTO 10,10,32768\n",
                            "THEN 50000": "10 IF A=1 THEN 50000\n", "ELSE 32701 nested": "10 IF A=1 THEN B=1 ELSE IF B=2 THEN 10 ELSE 32701\n",
                            "ON ERR GOTO 33000": "10 ON ERR GOTO 33000\n", "ON BRK GOTO 65535": "10 ON BRK GOTO 65535\n",
